@@ -448,10 +448,16 @@ where
 			.await?
 			.into_response();
 
-			let rp = ResponseSuccess::try_from(method_response.into_inner())?;
+			let rp = method_response.into_inner();
 
+			// The response must answer this call, whether it carries a result or an error.
+			if rp.id != id {
+				return Err(InvalidRequestId::NotPendingRequest(rp.id.to_string()).into());
+			}
+
+			let rp = ResponseSuccess::try_from(rp)?;
 			let result = serde_json::from_str(rp.result.get()).map_err(Error::ParseError)?;
-			if rp.id == id { Ok(result) } else { Err(InvalidRequestId::NotPendingRequest(rp.id.to_string()).into()) }
+			Ok(result)
 		}
 	}
 
